@@ -562,19 +562,40 @@ func isOnceClosure(ins ssa.Instruction) bool {
 // rule R-INITBEFOREUSE) has completed before g starts, under a recover.
 func seriesPreloaded(p *core.Program, spawner *ssa.Function, g *ssa.Go) bool {
 	ok := false
-	core.EachInstr(spawner, func(b *ssa.BasicBlock, i int, ins ssa.Instruction) {
-		call, isCall := ins.(*ssa.Call)
-		if !isCall || !core.IsStatic(&call.Call, "(*sync.Once).Do") || !core.InstrDominates(call, g) {
-			return
+	// the once.Do calls that dominate g: in the spawner itself, or in a helper of the same type that the spawner
+	// calls before g (func (c *op) initSeries(ctx) error { c.once.Do(...) })
+	var inits []*ssa.Function
+	onceInit := func(call *ssa.Call) *ssa.Function {
+		if !core.IsStatic(&call.Call, "(*sync.Once).Do") || len(call.Call.Args) < 2 {
+			return nil
 		}
 		mc, isMC := call.Call.Args[1].(*ssa.MakeClosure)
 		if !isMC {
+			return nil
+		}
+		f, _ := mc.Fn.(*ssa.Function)
+		return f
+	}
+	core.EachInstr(spawner, func(b *ssa.BasicBlock, i int, ins ssa.Instruction) {
+		call, isCall := ins.(*ssa.Call)
+		if !isCall || !core.InstrDominates(call, g) {
 			return
 		}
-		init, _ := mc.Fn.(*ssa.Function)
-		if init == nil {
+		if f := onceInit(call); f != nil {
+			inits = append(inits, f)
 			return
 		}
+		if helper := call.Call.StaticCallee(); helper != nil && p.InRepo(helper) && helper.Blocks != nil && recvNamed(helper) == recvNamed(spawner) {
+			core.EachInstr(helper, func(_ *ssa.BasicBlock, _ int, hi ssa.Instruction) {
+				if hc, ok := hi.(*ssa.Call); ok {
+					if f := onceInit(hc); f != nil {
+						inits = append(inits, f)
+					}
+				}
+			})
+		}
+	})
+	for _, init := range inits {
 		for f := range syncReach(p, init, func(caller *ssa.Function, ins ssa.Instruction, callee *ssa.Function) bool {
 			return recvNamed(callee) == recvNamed(spawner) || callee.Parent() != nil
 		}) {
@@ -595,6 +616,6 @@ func seriesPreloaded(p *core.Program, spawner *ssa.Function, g *ssa.Go) bool {
 				}
 			})
 		}
-	})
+	}
 	return ok
 }
